@@ -285,8 +285,20 @@ def gen_config(rng, sp, profile):
     if action == "bench" and rng.random() < 0.3:
         fmt = rng.choice(["binary", "decimal"])
         it.binary = fmt == "binary"
-        ch = rng.randrange(3)
-        if ch == 0:
+        ch = rng.randrange(5)
+        other = "decimal" if fmt == "binary" else "binary"
+        if ch == 3:
+            # flag and variable both present: the command line wins (as for every other option)
+            cli += ["--bytes-format", fmt] if rng.random() < 0.5 else ["--bytes-format=" + fmt]
+            env["DIVAN_BYTES_FORMAT"] = other
+        elif ch == 4:
+            # either of them over an earlier builder call
+            builder.append(["bytes_format", other])
+            if rng.random() < 0.5:
+                cli += ["--bytes-format", fmt]
+            else:
+                env["DIVAN_BYTES_FORMAT"] = fmt
+        elif ch == 0:
             cli += ["--bytes-format", fmt]
         elif ch == 1:
             env["DIVAN_BYTES_FORMAT"] = fmt
